@@ -117,10 +117,13 @@ def build_r2a(facts, summaries, w):
 
 def schedules(ctrl, data, tier, rnd):
     depth = 3 if tier == 'quick' else 4
-    if (1 << len(ctrl)) ** depth <= 70000:
+    limit = 5000 if tier == 'quick' else 70000
+    while depth > 1 and (1 << len(ctrl)) ** depth > limit:
+        depth -= 1
+    if (1 << len(ctrl)) ** depth <= limit:
         for seq in itertools.product(range(1 << len(ctrl)), repeat=depth):
             yield [dict({c: (x >> i) & 1 for i, c in enumerate(ctrl)}, **{d: rnd.choice(vals) for d, vals in data.items()}) for x in seq]
-    for _ in range(150 if tier == 'quick' else 600):
+    for _ in range(400 if tier == 'quick' else 1500):
         bias = {c: rnd.choice((0.08, 0.3, 0.6, 0.9)) for c in ctrl}
         bias['ap_reset'] = rnd.choice((0.0, 0.05, 0.2))
         n = rnd.choice((8, 16, 30))
@@ -164,8 +167,7 @@ def cosim(ctx, rule, name, build, model, ctrl, data, tier, seed, where):
         except (EvalError, Nondet, NetError) as e:
             ctx.violation(rule, '%s:runs' % name, '%s: a leaf summary fails: %s' % (name, e), where, witness=dict(schedule=hist))
             return
-    ctx.ok(rule, name, '%d schedules from power-up (all control-pulse schedules of depth %d with varying data + long biased ones): every output equals the reference in every cycle'
-           % (nseq, 3 if tier == 'quick' else 4), grade='bounded')
+    ctx.ok(rule, name, '%d schedules from power-up (all control-pulse schedules up to the exhaustive depth with varying data + long biased ones): every output equals the reference in every cycle' % nseq, grade='bounded')
     ctx.sample(dict(rule=rule, adapter=name, schedules=nseq, controls=ctrl))
 
 
